@@ -10,7 +10,7 @@ from vlib import arrio, core, twoconf  # noqa: E402
 
 PROP = 'C01'
 MODEL_MODULES = ['TenpyModel.Util.J', 'TenpyModel.Core.ArrCodec']
-PROPS_MODULES = ['TenpyModel.C01.PropsLabels', 'TenpyModel.C01.Props', 'TenpyModel.C01.PropsSort']
+PROPS_MODULES = ['TenpyModel.C01.PropsLabels', 'TenpyModel.C01.Props', 'TenpyModel.C01.PropsSort', 'TenpyModel.C01.PropsMerge']
 LEVEL = 'proof'
 BUDGET = {'quick': 175, 'thorough': 1700}
 RULE = ('random *programs* (1-8 steps quick, 1-20 thorough) over the public tensor operations, typed by executing '
@@ -182,6 +182,8 @@ def diff_model(st, rec, m):
     if 'arr' in v:
         if 'arr' not in m:
             return ('kind', f'impl returned a tensor, model {list(m)}')
+        if m['arr'].get('dense_spec_mismatch'):
+            return ('model-toDense-vs-toDenseFast', 'the specification toDense and its fast evaluation differ')
         for k in ARR_KEYS:
             if v['arr'][k] != m['arr'].get(k):
                 return (k, first_diff(v['arr'][k], m['arr'].get(k), k))
